@@ -39,6 +39,7 @@ pub fn config_strategy(allow_filter: bool) -> BoxedStrategy<WireConfig> {
             resp_mode,
             nodes_packets,
             seqs,
+            foreign_enr_answer: vec![],
             v_session_timeout_ms: None,
             v_session_capacity: None,
         })
